@@ -38,6 +38,27 @@ def _profile(F, fn, lenpat):
     return b, {k: sorted(v) for k, v in prof.items()}
 
 
+def resets(F, rep, rule="M9"):
+    """The analysing and the reconstructing walk over a block start from the same predictor state: predict_block and
+    recreate_block store the same constants into the same TokenPredictor fields (token counter, pending lazy-match memo ...).
+    A reset kept on one side only lets stale state from the previous block steer the other side's predictions."""
+    prof = {}
+    for fn in ("predict_block", "recreate_block"):
+        b = F.body("preflate_rs::token_predictor::TokenPredictor::<'a>::" + fn)
+        st = set()
+        for bb in sorted(b.normal_blocks()):
+            for s in b.stmts(bb):
+                if s.get("k") == "assign" and s["p"]["l"] == 1 and s["p"]["p"]:
+                    names = [e.get("n") for e in s["p"]["p"] if isinstance(e, dict) and e.get("n")]
+                    v = flow.describe_rvalue(b, s["r"], names=False)
+                    if names and (re.match(r"^K\d+$", v) or v.startswith("None") or v in ("const<bool>", "K0")):
+                        st.add((".".join(names), v))
+        prof[fn] = st
+    a, c = prof["predict_block"], prof["recreate_block"]
+    rep.add(rule, "block-prologue-resets-agree", a == c and len(a) >= 1, "src/token_predictor.rs",
+            "both sides reset %s" % sorted(a) if a == c else "analysis resets %s, reconstruction resets %s" % (sorted(a), sorted(c)))
+
+
 def m4(F, rep, rule="M4"):
     try:
         b1, p1 = _profile(F, "calculate_hops", _LEN[0])
